@@ -79,7 +79,7 @@ def dependency_of(spec, d):
     return Dependency(fam, params=par)
 
 
-def run_mixed(case, seed_override=None):
+def run_mixed(case, seed_override=None, dep_obj=None):
     mixed_up, Staircase, convert_pbox, Params = _mods()
     vars_ = [build_input(s) for s in case["inputs"]]
     f = X.Func(case["e"], len(vars_))
@@ -91,6 +91,8 @@ def run_mixed(case, seed_override=None):
         kw["n_sub"] = n
     out = {}
     dep = dependency_of(case.get("dep"), len(vars_)) if case["method"] != "slicing" else None
+    if dep_obj is not None:
+        dep = dep_obj          # reuse the SAME Dependency object (a history: two runs on one object)
     with Capture() as cap:
         try:
             if case["method"] == "slicing":
@@ -106,6 +108,7 @@ def run_mixed(case, seed_override=None):
             out["res"] = ("err", err_kind(ex))
             out["levels"] = None
     out["focal"], out["alphas"] = cap.focal, cap.alphas
+    out["dep_obj"] = dep
     return out
 
 
@@ -421,6 +424,15 @@ def oracle(ctx, c, o, pv, tol):
         if r2[0] != "ok" or not (np.array_equal(r2[1], left) and np.array_equal(r2[2], right)) or \
                 not (o2["levels"] is not None and lv is not None and np.array_equal(o2["levels"], lv)):
             ctx.fail(feat(c, "not-reproducible"), cj(c), "interval Monte Carlo with the same seed and dependency gives a different p-box")
+        # ... also when the very same Dependency object is used again (a second draw must restart the stream)
+        if o.get("dep_obj") is not None:
+            o4 = run_mixed(c, dep_obj=o["dep_obj"])
+            ctx.evaluations += 1
+            r4 = o4["res"]
+            if r4[0] != "ok" or not (np.array_equal(r4[1], left) and np.array_equal(r4[2], right)) or \
+                    not (o4["levels"] is not None and lv is not None and np.array_equal(o4["levels"], lv)):
+                ctx.fail(feat(c, "not-reproducible-same-object"), cj(c),
+                         "a second interval Monte Carlo run with the same seed on the SAME Dependency object gives a different p-box")
         if c["n_sam"] >= 5 and d >= 1:
             o3 = run_mixed(c, seed_override=c["seed"] + 1)
             if o3["levels"] is not None and lv is not None and np.array_equal(o3["levels"], lv):
